@@ -4,6 +4,15 @@
 #include "verif.h"
 #include "src/kernel/lmm/maxmin.hpp"
 #include "xbt/mallocator.h"
+#ifndef P_VAR
+#define P_VAR 0
+#endif
+#ifndef P_CHG
+#define P_CHG 0
+#endif
+#ifndef P_START
+#define P_START 0
+#endif
 struct s_xbt_mallocator {
   pvoid_f_void_t new_f;
   void_f_pvoid_t free_f;
@@ -60,6 +69,37 @@ extern "C" void harness_selective()
   for (int i = 0; i < 3; i++)
     CHECK(c[i]->modified_constraint_set_hook_.is_linked() == reach[i],
           "after a change, exactly the resources connected to it through enabled activities are re-solved (whatever the value of the visit counter)");
+#elif P_MODE == 2
+  // a real modification of the system (instead of the bare flagging call): every constraint connected, BEFORE the change, to a constraint of the touched
+  // variable must be flagged. P_VAR: the variable ; P_CHG: 0 suspend (penalty 0), 1 new penalty, 2 new bound, 3 free
+  bool reach[3] = {false, false, false};
+  if (not((P_DIS >> P_VAR) & 1)) { // an enabled variable links its constraints
+    if (P_VAR == 0)
+      reach[0] = reach[1] = true;
+    else if (P_VAR == 1)
+      reach[1] = reach[2] = true;
+    else
+      reach[2] = true;
+    for (int round = 0; round < 3; round++) {
+      if (not((P_DIS >> 0) & 1) && (reach[0] || reach[1]))
+        reach[0] = reach[1] = true;
+      if (not((P_DIS >> 1) & 1) && (reach[1] || reach[2]))
+        reach[1] = reach[2] = true;
+    }
+  }
+#if P_CHG == 0
+  sys.update_variable_penalty(v[P_VAR], 0.0);
+#elif P_CHG == 1
+  sys.update_variable_penalty(v[P_VAR], 3.0);
+#elif P_CHG == 2
+  sys.update_variable_bound(v[P_VAR], 5.0);
+#else
+  sys.variable_free(v[P_VAR]);
+#endif
+  for (int i = 0; i < 3; i++)
+    if (reach[i] && not c[i]->enabled_element_set_.empty()) // (a resource left without any enabled activity has nothing to re-solve)
+      CHECK(c[i]->modified_constraint_set_hook_.is_linked(),
+            "a change of an activity flags every resource that was connected to it through enabled activities (they all must be re-solved)");
 #else
   sys.update_modified_cnst_set(c[P_START]);
   sys.remove_all_modified_cnst_set();
